@@ -295,6 +295,15 @@ pub fn c03(out: &mut Vec<String>, rng: &mut Rng, tier: &str) {
         };
         out.push(qidx_line(rand_conf(rng), n, q));
     }
+    // an incomparable element inside data that is otherwise already in ascending order (documented panic)
+    for n in [8usize, 15] {
+        for pos in 0..n {
+            let mut d: Vec<f64> = (0..n).map(|i| i as f64 * 1.5).collect();
+            d[pos] = f64::NAN;
+            let p: Vec<Vec<f64>> = vec![];
+            out.push(qci_line::<f64>(confs[pos % confs.len()], 0.5, &d, &p));
+        }
+    }
     // data: all permutations of small samples (with ties), random permutations of larger ones
     let small_i: Vec<i64> = vec![3, 1, 4, 1, 5, 9, 2];
     let perms = permutations(&small_i);
@@ -401,6 +410,12 @@ pub fn nk_line_pub(conf: Confidence, n: usize, k: usize) -> String {
 }
 pub fn qidx_line_pub(prop: &str, conf: Confidence, n: usize, q: f64) -> String {
     qidx_line(conf, n, q).replacen("C03", prop, 1)
+}
+pub fn qci_nan_sorted_pub(prop: &str, conf: Confidence, n: usize, pos: usize) -> String {
+    let mut d: Vec<f64> = (0..n).map(|i| i as f64 * 1.5).collect();
+    d[pos] = f64::NAN;
+    let p: Vec<Vec<f64>> = vec![];
+    qci_line::<f64>(conf, 0.5, &d, &p).replacen("C03", prop, 1)
 }
 pub fn qci_i64_pub(prop: &str, conf: Confidence, q: f64, data: &[i64]) -> String {
     let p: Vec<Vec<i64>> = vec![data.iter().rev().cloned().collect()];
